@@ -9,6 +9,7 @@ from __future__ import annotations
 import itertools
 import time
 
+from . import c04 as C04
 from . import c05 as C05
 from . import cachecommon as CC
 from . import common as C
@@ -87,8 +88,9 @@ def _reentrant(ref, info, o, now):
         if ev[0] == "c" and ev[5] == 0 and not in_round2:
             in_round2 = True
             cur = {i: list(e) for i, e in ref.d.items() if i not in purged}    # the post-state, minus what round 1 purged
-        if ev[0] == "a" and ev[3][2] == 2:
-            t = ev[2]
+        if (ev[0] == "a" and ev[3][2] == 2) or ev[0] == "b":
+            # `add a listener with a question` (a scripted reaction, or a browser created by a service handler: clock = arrival time)
+            t = ev[2] if ev[0] == "a" else now
             ex = _expired_at(cur, t)
             nested.append((k, ex, {i: CC.spec_line(cur[i][2], cur[i][0], cur[i][1]) for i in ex}))
             for i in ex:
@@ -122,6 +124,14 @@ def oracle(probes, ops, obs, res):
                               "KeyError of set.remove escape and async_updates_from_response raised %s%d update and %d complete calls were made "
                               "for %d registered listeners" % (lid, "update" if ph % 10 == 1 else "complete", tg, lost, len(o["c1"]), len(o["c2"]), len(prev_ids))))
                 break
+            if k == "D" and o["err"] == "RuntimeError" and any(e[0] == "b" for e in (o.get("events") or [])):
+                ev = [e for e in o["events"] if e[0] == "b"][0]
+                found.append((idx, "C06:reentrant-browser-creation-aborts-completion-round",
+                              "inside async_update_records_complete browser %d's handler created browser %d: async_add_listener purged an expired record and "
+                              "ran nested async_updates + async_updates_complete(False), which re-entered browser %d's completion loop; %s escaped "
+                              "async_updates_from_response for the datagram at %d: the listeners after it got no complete call"
+                              % (ev[3][0], ev[3][1], ev[3][0], o.get("errmsg"), op[1])))
+                break
             if k == "D" and o["err"] == "KeyError" and not o.get("failed"):
                 # D24: a first-round callback registered a listener with a question; its purge removed an expired record the datagram withdraws
                 info = ref.datagram(op[1], op[2])
@@ -137,10 +147,14 @@ def oracle(probes, ops, obs, res):
                     break
             found.append((idx, "C06:exception:%s" % o["err"], "op %r raised %s" % (op[:2], o.get("errmsg"))))
             break
-        if k == "X":
-            # the purge is C05's subject: follow what the implementation reports
+        if k in ("X", "BA"):
+            # the purge (periodic, or of a browser's creation) is C05's / C04's subject: follow what the implementation reports
             for n, _ in (o["u"] or []):
                 ref.d.pop(CC.parse_line(n)[0], None)
+            for e in (o.get("events") or []):
+                if e[0] == "u" and e[1] is None and e[5] >= 1:
+                    for n, _ in e[3]:
+                        ref.d.pop(CC.parse_line(n)[0], None)
         elif k == "D":
             now, recs = op[1], op[2]
             pre_lines = ref.lines()
@@ -311,6 +325,8 @@ def _check_nested(found, idx, o, nested, l1):
     evs = o["events"]
     for k, ex, lines in nested:
         ev = evs[k]
+        if ev[0] == "b":
+            ev = ["a", ev[1], o.get("unow") or 0, [None, ev[1], 2, ev[3][1]], None, ev[5]]
         depth = ev[5] + 1
         # the nested update calls of the listener registered throughout that belong to this reaction: up to the next act at the same depth
         told = []
@@ -472,6 +488,15 @@ def run(ctx):
     for ops in reentrant_histories():
         run_.add("reentrant", probes_r, ops)
         n_re += 1
+
+    # D24b: browsers (real _ServiceBrowserBase listeners) whose service handlers create browsers from inside the completion round
+    probes_b = CC.vocab_probes(C04.VOCAB, [C04.TX, C04.TY, C04.TZ])
+    n_br = 0
+    for k, ops in enumerate(C04.d25_histories()):
+        if k % 3 == 0 or tier == "thorough":
+            run_.add("browser-created-in-handler", probes_b, ops)
+            n_br += 1
+    res.count("browser-reentrant-histories", n_br)
 
     probes_e = CC.vocab_probes(C05.EXH_VOCAB)
     plans = [("react", C05.EXH_SMALL, [0, 1001], 2), ("plain", C05.EXH_SMALL, C05.EXH_SMALL_GAPS, 3)]
